@@ -101,6 +101,8 @@ pub fn gen_shape(t: &mut Tape, tree: &TreeSpec, base: &Base) -> Shape {
         .nodes
         .iter()
         .filter(|n| n.kind == Kind::Dir && !n.unreadable)
+        // (a name with a backslash cannot be spelled as a glob literal by the renderer)
+        .filter(|n| !n.path.contains('\\') && !n.path.contains(RAW))
         .filter_map(|n| match base {
             Base::Sub(p) => n.path.strip_prefix(&format!("{}/", p)).map(String::from),
             Base::Parent => Some(format!("t/{}", n.path)),
